@@ -1,5 +1,6 @@
 import BoltonsVerif.C01.Proofs
 import BoltonsVerif.C01.ConcreteProofs
+import BoltonsVerif.Generated.C01_Effects
 /-
 C01 — property theorems for the OrderedMultiDict model (statements, short derivations from
 `Proofs.lean`, non-vacuity examples).
@@ -443,6 +444,48 @@ theorem sortedvalues_sorted (s : OMD K V) (h : Inv s) (le : V → V → Bool) (r
   intro a b hab
   cases rev <;> simpa [flipIf] using hab
 
+
+/-! ## the source, as it is now: which method writes which structure
+
+`Generated.C01.methods` is regenerated on every run from the current source of BOTH copies of the class
+(`boltons/dictutils.py`, `boltons/urlutils.py`) by a static, transitive effect analysis (`regen` in
+`harness/bv/props/c01.py`): for every public method, may it write the dict's own storage (`dictW`), may
+it write the linked list or its cell index (`llW`).  The theorems below are re-proved over the
+regenerated table, so they are proof obligations about the code as it is today. -/
+
+/-- the operations the model has a state-changing `HOp` for (`__init__` = `new`, `__setstate__` =
+    the copy module / pickle, `__ior__` = `update`) -/
+def modelledMutators : List String :=
+  ["__init__", "__setstate__", "add", "addlist", "__setitem__", "__delitem__", "update", "update_extend",
+   "__ior__", "setdefault", "pop", "popall", "poplast", "popitem", "clear"]
+
+/-- the methods the model treats as pure functions of the state (`Model.lean`, "readers", equality,
+    derived containers, copies) -/
+def modelledReaders : List String :=
+  ["__getstate__", "__reduce_ex__", "get", "getlist", "copy", "__getitem__", "__eq__", "__ne__", "iteritems",
+   "iterkeys", "itervalues", "todict", "sorted", "sortedvalues", "inverted", "counts", "keys", "values", "items",
+   "__iter__", "__reversed__", "__repr__", "fromkeys", "viewkeys", "viewvalues", "viewitems"]
+
+/-- "every mutator updates both structures together": in the current source of both copies no public
+    method may write the dict's storage without also writing the linked list / cell index, or the
+    other way round -/
+theorem source_mutators_write_both_structures :
+    ∀ m ∈ Generated.C01.methods, m.dictW = m.llW := by decide
+
+/-- every operation the model has a state-changing step for is defined by the class itself, in both
+    copies, and writes both structures; none of dict's own mutators is inherited unchanged (an
+    inherited `popitem` / `setdefault` / … would change the dict behind the linked list's back) -/
+theorem source_modelled_mutators_present :
+    (∀ f ∈ ["dictutils", "urlutils"], ∀ n ∈ modelledMutators,
+      (⟨f, n, true, true⟩ : Generated.C01.Method) ∈ Generated.C01.methods) ∧
+    Generated.C01.inheritedMutators = [] := by decide
+
+/-- the readers, which the model takes to be pure functions of the state, write neither structure in
+    the current source (a reader that re-ordered a value list or re-linked cells would make "every
+    read" depend on the reads made before) -/
+theorem source_readers_write_nothing :
+    ∀ m ∈ Generated.C01.methods, m.name ∈ modelledReaders → m.dictW = false ∧ m.llW = false := by decide
+
 /-! ## non-vacuity: concrete histories and states the theorems speak about -/
 
 /-- an interleaved multi-valued state reached by a history with replacement and removal -/
@@ -546,5 +589,11 @@ example : ((OMD.fromPairs [(1, 2), (0, 3), (1, 0)] : OMD Nat Nat).sorted
     (fun a b => decide (a.2 ≤ b.2)) true).cells = [(0, 3), (1, 2), (1, 0)] := by decide
 /-- a state that violates `Inv` (what `addlist(k, iterator)` used to produce): its reads disagree -/
 example : (⟨[(0, [])], [(0, 1), (0, 2)]⟩ : OMD Nat Nat).items = .error .indexError := rfl
+
+/-- the regenerated table is not empty and has both kinds of rows, in both copies -/
+example : (⟨"dictutils", "add", true, true⟩ : Generated.C01.Method) ∈ Generated.C01.methods ∧
+    (⟨"urlutils", "__reversed__", false, false⟩ : Generated.C01.Method) ∈ Generated.C01.methods := by decide
+/-- what the first theorem excludes: a method that deletes from the dict and leaves the cells linked -/
+example : ¬ (∀ m ∈ [(⟨"dictutils", "__delitem__", true, false⟩ : Generated.C01.Method)], m.dictW = m.llW) := by decide
 
 end C01
